@@ -464,3 +464,11 @@ func (s *Stats) Enumerate(t *testing.T, o CheckOpts, cells [][]Draw, prop func(c
 		}
 	}
 }
+
+// PlainCase returns a case that is not driven by a generator (for workloads whose parameters
+// come from elsewhere, e.g. a child process).
+func (s *Stats) PlainCase() *Case {
+	c := s.newCase(nil)
+	c.Src = &listSrc{c: c}
+	return c
+}
